@@ -46,7 +46,8 @@ OPERAND_GROUPS = [
     ["nil", "nil", "true", "true", "false", "false"],
     ["'s'", "\"s\"", "[[s]]", "'s#'", "'s#'", "''", "''", "'#'"],
     ["f ( )", "f ( )", "f ( a )", "f ( a )", "f ( ( a ) )", "f ( g ( ) )", "f ( ( g ( ) ) )", "f ( ( g ( ) ) )", "f { }",
-     "f 's'", "f 's'", "a : m ( )", "a : m ( )", "a . m ( )", "a : n ( )", "( f ( ) )", "( ( f ( ) ) )", "( f ( a ) )",
+     "f 's'", "f 's'", "a : m ( )", "a : m ( )", "a . m ( )", "a : n ( )", "a ( )", "a : m ( x )", "a ( x )", "a ( x )",
+     "a . b : m ( x )", "a . b ( x )", "( f ( ) )", "( ( f ( ) ) )", "( f ( a ) )",
      "f ( ( ( g ( ) ) ) )", "f ( ( g ( ) ) , 1 )", "f ( g ( ) , 1 )"],
     ["- a", "- a", "not a", "not a", "# a", "- ( a )", "- b"],
     ["a + 1", "a + 1", "a + 1.0", "1 + a", "( a + 1 )", "a .. 's'", "a .. 's'", "a + b * 2", "a + b * 2", "( a + b ) * 2"],
@@ -67,6 +68,7 @@ CLEAN_GROUPS = [
 CMP_OPS = ["==", "~=", "<", "<=", ">", ">=", "and", "or"]
 OTHER_OPS = ["+", "-", "..", "*", "//", "&", "|"]
 VARS = ["a", "b", "a . b", "a . b . c", "a [ 1 ]", "a [ b ]", "a [ 'k' ]", "( a ) . b", "t [ f ( ) ]", "f ( ) . x",
+        "obj : m ( x ) . y", "obj ( x ) . y", "obj : m ( x ) . y",
         "a [ 0.5 ]", "self . x"]
 ONE_VALUED = ["1", "1.5", "'s'", "nil", "true", "false", "x", "_G"]
 NOT_ONE_VALUED = ["f ( )", "...", "( f ( ) )", "( x )", "x . y", "x [ 1 ]", "- 1", "1 + 2", "{ }", "function ( ) end",
@@ -82,7 +84,8 @@ CLEAN_COND_GROUPS = [
     ["a", "a", "b", "not a", "not a", "a . b", "a . b", "a [ 'b' ]", "( a )", "( a . b )"],
     ["nil", "nil", "true", "true", "( true )", "( nil )", "false"],
     ["x == 1", "x == 1", "x == 1.0", "x == 2", "1 == x", "x ~= 1", "x == 0.5", "x == 0.5", "x == 0.50", "x == 0.500002"],
-    ["f ( a )", "f ( a )", "f ( b )", "f ( a , b )", "a : m ( )", "a : m ( )", "a . m ( )", "f { }", "f 's'", "f 's'"],
+    ["f ( a )", "f ( a )", "f ( b )", "f ( a , b )", "a : m ( )", "a : m ( )", "a . m ( )", "a ( )", "a ( )", "f { }", "f 's'", "f 's'"],
+    ["obj : m ( x )", "obj ( x )", "obj : m ( x )", "obj ( x )", "obj . m ( x )", "obj : n ( x )", "obj : m ( y )"],
     ["a and b", "a and b", "b and a", "a or b", "a and b or x", "a and b or x", "# t > 0", "# t > 0", "# t > 1"],
     ["a [ 1 ]", "a [ 1 ]", "a [ 1.0 ]", "a [ '1' ]", "a [ 0x1 ]", "false", "false", "1", "1", "'s'", "...", "..."],
 ]
